@@ -20,6 +20,7 @@ repo.activate()
 
 from happysimulator.core.entity import Entity  # noqa: E402
 from happysimulator.core.simulation import Simulation  # noqa: E402
+from happysimulator.core.temporal import Instant  # noqa: E402
 
 from simkit import c14_storage as S  # noqa: E402
 from simkit.history import History  # noqa: E402
@@ -27,18 +28,22 @@ from simkit.rng import seed_globals  # noqa: E402
 from simkit.world import BudgetExceeded, InvalidScenario, Monitor, Violation, repo_exception_sig, result  # noqa: E402
 
 PROPERTY = "C15"
-RUNS = {"quick": 500, "thorough": 60_000}
-WALL = {"quick": 55, "thorough": 1500}
+RUNS = {"quick": 400, "thorough": 60_000}
+WALL = {"quick": 58, "thorough": 1500}
 BATCH = {"quick": 8, "thorough": 50}
 SELFTEST_RUNS = 6
 RULE = (
-    "each case is one workload (1-4 writer processes, 3-10 put/delete ops each on 3-5 keys with unique values, seeded start "
-    "offsets and think times; LSMTree with memtable 1-6 or 64, any compaction strategy, WriteAheadLog with SyncEveryWrite / "
-    "SyncOnBatch(1-4) / SyncPeriodic(0.5-20 ms)) together with its crash indices: every delivery index when the workload has "
-    "<= 64 deliveries, otherwise all indices inside or adjacent to flush/compaction windows (<= 40) plus a seeded sample; each "
-    "crash index (thorough tier: every index up to 400 deliveries) is a fresh re-run stopped after that delivery, then crash(), recover_from_crash(), read-back, second recover, "
-    "second crash+recover.  Non-trivial = at least one crash point fell inside a flush or compaction window and at least one "
-    "crash point restored a durable write from the WAL.  Distinct = distinct hashes of (delivery digest, recovered states)."
+    "each case is one workload (1-5 writer processes, 3-14 put/delete ops each on 3-5 keys with unique values, seeded start "
+    "offsets and think times; 15 % of workloads mix in put_sync; LSMTree with memtable 1-6 or 64, 2-4 levels, any compaction "
+    "strategy, WriteAheadLog with SyncEveryWrite / SyncOnBatch(1-4) / SyncPeriodic(0.5-20 ms), policy drawn uniformly) together "
+    "with its crash indices: every delivery index when the workload has <= 72 deliveries (thorough: <= 400), otherwise every "
+    "index inside or adjacent to a flush/compaction window or WAL truncation (<= 54) plus a seeded sample and the final index; each "
+    "crash index is a fresh re-run stopped after that delivery, then crash(), recover_from_crash(), read-back, second recover, "
+    "second crash+recover.  For up to 5 first-crash indices (3 of them inside windows) a follow-up workload (1-3 new writer "
+    "processes) runs on the recovered tree in a new Simulation starting at the crash instant and is crashed again at up to 6 of "
+    "its delivery indices (window-biased), then recovered and read back against the first recovery's state plus the follow-up "
+    "writes.  Non-trivial = at least one crash point fell inside a flush or compaction window and at least one crash point "
+    "restored a durable write from the WAL.  Distinct = distinct hashes of (delivery digest, recovered states)."
 )
 STATE_MEASURE = ("distinct (sync policy, memtable bucket, writers, in-flush, in-compaction, writers-inside-append bucket, unsynced tail lost, "
                  "memtable entries lost, WAL entries replayed bucket, sstables>0) tuples over crash points")
@@ -61,18 +66,26 @@ ASSUMPTIONS = [
     "reached an SSTable); a key with no durable write may also be absent",
     "'resurrected' is taken as: a value overwritten or deleted by a durable write reappears; losing non-durable suffixes is legitimate",
     "un-synced WAL entries surviving crash() are not judged (the statement does not forbid extra durability)",
-    "the simulation is not resumed after recovery (the statement ends at readability after recovery)",
+    "processes suspended at the crash die with it; work after a recovery is done by new processes in a new Simulation that starts at "
+    "the crash instant on the same (recovered) LSMTree/WAL objects; what the first recovery made readable counts as durable",
+    "put_sync goes through WriteAheadLog.append_sync, which never syncs: such a write is durable only once a later fsync covers it",
 ]
 EXPECTED_PROBES = [
-    "fault.crash_points", "fault.crash_in_flush_window", "fault.crash_in_compaction_window", "fault.crash_lost_unsynced_wal_tail",
-    "fault.crash_lost_memtable_entries", "fault.crash_with_writers_inside_wal_append", "probe.durable_write_restored_from_wal",
+    "fault.crash_points", "fault.crash_in_flush_window", "fault.crash_in_compaction_window",
+    "fault.second_crash_points", "fault.second_crash_in_flush_window", "fault.second_crash_in_compaction_window",
+    "fault.crash_points_policy_every", "fault.crash_points_policy_batch", "fault.crash_points_policy_periodic",
+    "fault.crash_lost_unsynced_wal_tail", "fault.crash_lost_memtable_entries", "fault.crash_lost_immutable_memtable_entries",
+    "fault.crash_with_writers_inside_wal_append", "probe.durable_write_restored_from_wal",
     "probe.nondurable_write_survived_in_sstable", "probe.durable_delete_read_back_absent", "probe.wal_truncated_before_crash",
-    "probe.crash_after_wal_sync_before_memtable_put", "probe.all_crash_points_covered",
+    "probe.crash_after_wal_sync_before_memtable_put", "probe.all_crash_points_covered", "probe.crash_with_three_levels_occupied",
+    "probe.crash_after_tombstone_reached_sstable", "probe.compaction_requested_while_one_in_progress",
+    "probe.wal_kept_entries_of_newer_memtable_across_flush", "probe.sync_api_write_in_workload",
+    "workloads_policy_every", "workloads_policy_batch", "workloads_policy_periodic",
 ]
 SHRINK_SKIP = ("keys", "kind", "strategy", "klass", "policy")
 
 CAP = 4000
-MAX_ALL = 64
+MAX_ALL = 72
 START_NS = [0, 0, 0, 1_000, 50_000, 100_000, 500_000, 1_000_000, 1_500_000, 2_500_000]
 GAP_NS = [0, 0, 0, 1_000, 10_000, 100_000, 300_000, 1_000_000, 1_100_000, 2_000_000, 3_000_000]
 
@@ -102,6 +115,7 @@ class Writer(Entity):
         W = self.w
         lsm, wal, hist, keys = W.lsm, W.wal, W.hist, W.keys
         n = len(keys)
+        tag = W.tag
         for i, op in enumerate(self.spec["ops"]):
             if not isinstance(op, dict):
                 raise InvalidScenario("op")
@@ -110,15 +124,19 @@ class Writer(Entity):
                 yield g
             key = keys[S.check_index(op.get("k"), n)]
             kind = op.get("op")
-            seq = wal._next_sequence  # the sequence number wal.append() is about to assign
-            if kind == "put":
-                val = f"v{self.idx}.{i}"
-                h = hist.invoke(self.idx, "put", key, val, seq=seq)
+            seq = wal._next_sequence  # the sequence number the WAL is about to assign
+            if kind in ("put", "put_sync"):
+                val = f"{tag}{self.idx}.{i}"
+                h = hist.invoke(self.idx, "put", key, val, seq=seq, sync_api=kind == "put_sync")
                 W.writes[key].append(h)
                 W.by_seq[seq] = h
-                yield from lsm.put(key, val)
+                if kind == "put":
+                    yield from lsm.put(key, val)
+                else:
+                    lsm.put_sync(key, val)
+                    W.sync_api_ops += 1
             elif kind == "delete":
-                h = hist.invoke(self.idx, "delete", key, None, seq=seq)
+                h = hist.invoke(self.idx, "delete", key, None, seq=seq, sync_api=False)
                 W.writes[key].append(h)
                 W.by_seq[seq] = h
                 yield from lsm.delete(key)
@@ -140,6 +158,11 @@ class DurabilityWatch:
         self.trunc_unflushed: set[int] = set()
         self.truncations = 0
         self.overlap_compactions = False
+        self.max_levels_occupied = 0
+        self.tomb_in_sst = False
+        self.compaction_requests_while_busy = 0
+        self._flushes = 0
+        self._compacting_prev = 0
 
     def represented(self, o) -> bool:
         key = o["key"]
@@ -156,11 +179,19 @@ class DurabilityWatch:
 
     def observe(self):
         W = self.w
+        lsm = W.lsm
         stamp = W.hist._stamp
-        for level in W.lsm._levels:
+        occ = 0
+        for level in lsm._levels:
+            if level:
+                occ += 1
             for sst in level:
                 if id(sst) not in self.seen:
                     self.seen[id(sst)] = (sst, stamp)
+                    if not self.tomb_in_sst and any(v is S.TOMB for v in sst._values):
+                        self.tomb_in_sst = True
+        if occ > self.max_levels_occupied:
+            self.max_levels_occupied = occ
         cur = {e.sequence_number for e in W.wal._entries}
         gone = [q for q in range(1, W.wal._next_sequence) if q not in cur and q not in self.done_seqs]
         if gone:
@@ -170,15 +201,31 @@ class DurabilityWatch:
                 o = W.by_seq.get(q)
                 if o is not None and not self.represented(o):
                     self.trunc_unflushed.add(q)
-        if W.tracker.phases()["compact"] >= 2:
+        ph = W.tracker.phases()
+        if ph["compact"] >= 2:
             self.overlap_compactions = True
+        fl = lsm._total_memtable_flushes
+        if fl != self._flushes:
+            self._flushes = fl
+            if getattr(lsm, "_compaction_in_progress", False) and self._compacting_prev >= 1 and \
+                    ph["compact"] <= self._compacting_prev and lsm._compaction_strategy.should_compact(lsm._levels):
+                self.compaction_requests_while_busy += 1
+        self._compacting_prev = ph["compact"]
+
+
+def _pseudo_initial(key, value):
+    """The state a recovery left behind, as a durable write that completed before everything that follows."""
+    return {"id": -1, "client": "recovered", "kind": "put" if value is not None else "delete", "key": key, "value": value,
+            "inv": -1, "ret": 0, "seq": 0, "sync_api": False}
 
 
 class World:
-    """One fresh instance of the workload (built identically for every re-run)."""
+    """One fresh instance of a workload phase (built identically for every
+    re-run).  Phase 1 builds the LSM tree; phase 2 (`base` given) starts new
+    writer processes on the *recovered* tree of `base` in a new Simulation that
+    begins at the crash instant: the processes of phase 1 died with the crash."""
 
-    def __init__(self, sc, stop_at=None):
-        seed_globals(sc.get("seed", 0) if isinstance(sc.get("seed", 0), int) else 0)
+    def __init__(self, sc, stop_at=None, *, base: "World | None" = None, recovered: dict | None = None):
         self.sc = sc
         self.keys = sc.get("keys")
         if not isinstance(self.keys, list) or not self.keys or sorted(set(self.keys)) != self.keys:
@@ -186,25 +233,45 @@ class World:
         eng = sc.get("engine")
         if not isinstance(eng, dict) or eng.get("kind") != "lsm" or not isinstance(eng.get("wal"), dict):
             raise InvalidScenario("C15 needs an LSM tree with a WAL")
-        self.lsm, ents = S.build_engine(eng)
-        self.wal = self.lsm._wal
         self.tracker = S.ProcTracker()
-        self.hist = History()
-        self.writes = {k: [] for k in self.keys}
         self.by_seq = {}
-        ws = sc.get("writers")
+        self.sync_api_ops = 0
+        self.prior_values = {}
+        if base is None:
+            seed_globals(sc.get("seed", 0) if isinstance(sc.get("seed", 0), int) else 0)
+            self.tag = "v"
+            self.lsm, ents = S.build_engine(eng)
+            self.hist = History()
+            self.writes = {k: [] for k in self.keys}
+            ws = sc.get("writers")
+            start = None
+        else:
+            self.tag = "x"
+            self.sync_api_ops = base.sync_api_ops
+            self.lsm, ents = base.lsm, [base.lsm]
+            self.hist = base.hist
+            self.writes = {k: [_pseudo_initial(k, recovered[k])] for k in self.keys}
+            self.prior_values = {k: {o["value"] for o in base.writes[k] if o["kind"] == "put"} for k in self.keys}
+            after = sc.get("after")
+            if not isinstance(after, dict):
+                raise InvalidScenario("after")
+            ws = after.get("writers")
+            start = Instant(base.mon.last_time_ns)
+        self.wal = self.lsm._wal
         if not isinstance(ws, list) or not ws:
             raise InvalidScenario("writers")
-        self.writers = [Writer(f"w{i}", i, spec, self) for i, spec in enumerate(ws)]
-        self.sim = Simulation(entities=ents + self.writers)
+        self.writers = [Writer(f"{self.tag}w{i}", i, spec, self) for i, spec in enumerate(ws)]
+        self.sim = Simulation(entities=ents + self.writers, start_time=start)
+        t0 = 0 if start is None else start.nanoseconds
         for w in self.writers:
             st = w.spec.get("start_ns", 0)
             if isinstance(st, bool) or not isinstance(st, int) or st < 0:
                 raise InvalidScenario("start")
-            self.sim.schedule(S.start_event(st, w))
+            self.sim.schedule(S.start_event(t0 + st, w))
         self.stop_at = stop_at
         self.phase_log = []  # per delivery: (flush in flight, compaction in flight, wal size, digest prefix)
         self.watch = DurabilityWatch(self)
+        self.watch.observe()
         self._mark, self._syncs = self.wal.synced_up_to, self.wal.stats.syncs
         self.mon = Monitor(self.sim, cap=CAP, invariant=self._after)
 
@@ -255,13 +322,17 @@ def baseline(sc):
 
 
 # --------------------------------------------------------------------------
-# generation (the dry run that learns L and the windows is part of it)
+# generation (the dry runs that learn lengths and windows are part of it)
 # --------------------------------------------------------------------------
 
-def choose_crash_points(phase_log, rng, max_all=MAX_ALL) -> list[int]:
+def choose_crash_points(phase_log, rng, max_all=MAX_ALL, max_hot=None) -> list[int]:
+    """All indices when the phase is short; otherwise every index inside or
+    next to a flush/compaction window or a WAL truncation (up to max_hot),
+    topped up with a seeded sample of the rest."""
     L = len(phase_log)
     if L <= max_all:
         return list(range(1, L + 1))
+    max_hot = max_hot if max_hot is not None else (max_all * 3) // 4
     hot = set()
     prev_wal = 0
     for i, (fl, co, wal_n, _) in enumerate(phase_log, start=1):
@@ -269,35 +340,76 @@ def choose_crash_points(phase_log, rng, max_all=MAX_ALL) -> list[int]:
             hot.update(x for x in (i - 1, i, i + 1) if 1 <= x <= L)
         prev_wal = wal_n
     hot = sorted(hot)
-    if len(hot) > 40:
-        hot = sorted(rng.sample(hot, 40))
+    if len(hot) > max_hot:
+        hot = sorted(rng.sample(hot, max_hot))
     rest = [k for k in range(1, L + 1) if k not in set(hot)]
     extra = rng.sample(rest, min(len(rest), max(0, max_all - len(hot))))
-    return sorted(set(hot) | set(extra))
+    return sorted(set(hot) | set(extra) | {L})
+
+
+def _gen_ops(rng, n_keys, n, sync_api):
+    out = []
+    for _ in range(n):
+        r = rng.random()
+        kind = "delete" if r < 0.3 else ("put_sync" if sync_api and r < 0.42 else "put")
+        out.append({"op": kind, "k": rng.randrange(n_keys), "gap_ns": rng.choice(GAP_NS)})
+    return out
 
 
 def gen(rng, tier):
-    klass = rng.choices(["1w", "nw-noflush", "nw"], weights=[25, 10, 65])[0]
     n_keys = rng.randint(3, 5)
     keys = sorted(f"k{i:02d}" for i in rng.sample(range(100), n_keys))
-    mt = 64 if klass == "nw-noflush" else rng.choice([1, 1, 2, 2, 3, 4, 6])
-    eng = S.gen_lsm_spec(rng, memtable=mt, wal="yes")
+    policy = rng.choice(["every", "batch", "periodic"])
+    mt = rng.choice([1, 1, 2, 2, 3, 4, 6, 64])
+    eng = S.gen_lsm_spec(rng, memtable=mt, wal="no")
+    eng["wal"] = S.gen_wal_spec(rng, policy)
     eng["w_us"] = rng.choice([200, 500, 2000, 2000, 5000])
-    n_w = 1 if klass == "1w" else rng.randint(2, 4)
-    writers = []
-    for _ in range(n_w):
-        ops = [{"op": "put" if rng.random() < 0.7 else "delete", "k": rng.randrange(n_keys), "gap_ns": rng.choice(GAP_NS)}
-               for _ in range(rng.randint(3, 10))]
-        writers.append({"start_ns": rng.choice(START_NS), "ops": ops})
+    eng["max_levels"] = rng.choice([2, 3, 3, 4])
+    n_w = rng.choice([1, 2, 2, 3, 3, 4, 5])
+    sync_api = rng.random() < 0.15
+    writers = [{"start_ns": rng.choice(START_NS), "ops": _gen_ops(rng, n_keys, rng.randint(3, 14), sync_api)} for _ in range(n_w)]
+    klass = ("1w" if n_w == 1 else "nw") + ("+sync-api" if sync_api else "")
     sc = {"kind": "crash", "klass": klass, "seed": rng.getrandbits(32), "keys": keys, "engine": eng, "writers": writers,
-          "crash": {"ks": []}}
+          "after": {"writers": [{"start_ns": rng.choice(START_NS), "ops": _gen_ops(rng, n_keys, rng.randint(2, 7), False)}
+                                for _ in range(rng.randint(1, 3))]},
+          "crash": {"ks": [], "second": []}}
+    r2 = random.Random(sc["seed"])
+    max_all = MAX_ALL if tier == "quick" else 400
     w, st = baseline(sc)
-    sc["crash"]["ks"] = choose_crash_points(w.phase_log, random.Random(sc["seed"]), MAX_ALL if tier == "quick" else 400)
+    ks = choose_crash_points(w.phase_log, r2, max_all)
+    sc["crash"]["ks"] = ks
+    # second crash, during the work that follows the first recovery: a few first-crash indices (window-biased), and for each
+    # a few second-crash indices inside the follow-up phase (all of them when it is short)
+    if ks and not isinstance(st, tuple):
+        hot = [k for k in ks if k <= len(w.phase_log) and (w.phase_log[k - 1][0] or w.phase_log[k - 1][1])]
+        firsts = set(r2.sample(hot, min(len(hot), 3))) | set(r2.sample(ks, min(len(ks), 2)))
+        for k in sorted(firsts):
+            L2 = _second_phase_length(sc, k)
+            if L2:
+                js = choose_crash_points(L2, r2, 6 if tier == "quick" else 40, 4 if tier == "quick" else 30)
+                sc["crash"]["second"].extend([k, j] for j in js)
     return sc
 
 
+def _second_phase_length(sc, k):
+    """Dry run: phase 1 up to k, crash, recover, phase 2 to completion -> its phase log (None if anything is off)."""
+    W = World(sc, stop_at=k)
+    if W.run() != "stopped":
+        return None
+    try:
+        W.lsm.crash()
+        W.lsm.recover_from_crash()
+        rec = {key: W.lsm.get_sync(key) for key in W.keys}
+    except Exception:  # noqa: BLE001  (judged properly in run())
+        return None
+    W2 = World(sc, base=W, recovered=rec)
+    if W2.run() != "done":
+        return None
+    return W2.phase_log
+
+
 # --------------------------------------------------------------------------
-# the crash experiment at one index
+# crash, recover, read back, judge
 # --------------------------------------------------------------------------
 
 def _sst_has(lsm, key, want) -> bool:
@@ -313,16 +425,9 @@ def _superseded(w, durable) -> bool:
     return any(w["ret"] is not None and d["inv"] > w["ret"] for d in durable if d is not w)
 
 
-def crash_at(sc, k, base_digest, C, states):
-    """Re-run, stop after delivery k, crash, recover, judge.  -> (sig, msg) | None"""
-    W = World(sc, stop_at=k)
-    st = W.run()
-    if st != "stopped":
-        if isinstance(st, tuple):
-            return st[1], st[2]
-        raise RuntimeError(f"re-run finished before delivery {k} (baseline had it)")
-    if W.mon.digest != base_digest:
-        raise RuntimeError(f"re-run diverged from the baseline run before delivery {k}")
+def crash_recover_judge(W: World, label: str, C: dict, states: set, sc: dict, phase: str):
+    """W is stopped at the crash point.  crash(), recover, read back, judge.
+    -> (sig, msg) on violation, else the recovered state dict."""
     lsm, wal = W.lsm, W.wal
     ph = W.tracker.phases()
     in_flush = ph["flush"] > 0 or len(lsm._immutable_memtables) > 0
@@ -330,17 +435,20 @@ def crash_at(sc, k, base_digest, C, states):
     in_append = sum(1 for g in W.tracker.procs if g.gi_frame is not None and "append" in S.gen_chain(g))
     synced = wal.synced_up_to
     pre_wal = {e.sequence_number: e for e in wal._entries}
-    ops = W.hist.ops
     by_seq = W.by_seq
     # fine: every WAL entry is the record of the write the harness associates with that sequence number
     for s, e in pre_wal.items():
         o = by_seq.get(s)
-        if o is None or o["key"] != e.key or (e.value is not S.TOMB and e.value != o["value"]) or \
-                ((e.value is S.TOMB) != (o["kind"] == "delete")):
+        if o is None:
+            if phase == "second":
+                continue  # a record from before the first crash (judged there)
+            return ("C15/wal-entry-matches-write/WriteAheadLog/unknown-entry",
+                    f"{label}: WAL entry seq={s} ({e.key!r}) belongs to no write the harness issued")
+        if o["key"] != e.key or (e.value is not S.TOMB and e.value != o["value"]) or ((e.value is S.TOMB) != (o["kind"] == "delete")):
             return ("C15/wal-entry-matches-write/WriteAheadLog/mismatch",
-                    f"crash index {k}: WAL entry seq={s} holds ({e.key!r}, {S.norm(e.value)!r}) but the write issued with that "
-                    f"sequence number was {o and (o['kind'], o['key'], o['value'])}")
-    pre_sst = {key: [S.norm(v) for _, v in S.lsm_view(lsm, key) if _.startswith("L")] for key in W.keys}
+                    f"{label}: WAL entry seq={s} holds ({e.key!r}, {S.norm(e.value)!r}) but the write issued with that "
+                    f"sequence number was {(o['kind'], o['key'], o['value'])}")
+    pre_sst = {key: [S.norm(v) for where, v in S.lsm_view(lsm, key) if where.startswith("L")] for key in W.keys}
     try:
         info = lsm.crash()
         post_wal = {e.sequence_number for e in wal._entries}
@@ -355,36 +463,43 @@ def crash_at(sc, k, base_digest, C, states):
         sig = repo_exception_sig(exc)
         if sig is None:
             raise
-        return f"C15/{sig}", f"crash index {k}: {exc!r}"
+        return f"C15/{sig}", f"{label}: {exc!r}"
 
     # ---- counters (what actually happened at this crash point)
-    C["fault.crash_points"] += 1
-    C["fault.crash_in_flush_window"] += int(in_flush)
-    C["fault.crash_in_compaction_window"] += int(in_comp)
+    pol = sc["engine"]["wal"]["policy"]
+    pre = "fault.second_" if phase == "second" else "fault."
+    C[pre + "crash_points"] += 1
+    C[f"fault.crash_points_policy_{pol}"] += 1
+    C[pre + "crash_in_flush_window"] += int(in_flush)
+    C[pre + "crash_in_compaction_window"] += int(in_comp)
     C["fault.crash_lost_unsynced_wal_tail"] += int(info["wal_entries_lost"] > 0)
-    C["fault.crash_lost_memtable_entries"] += int(info["memtable_entries_lost"] + info["immutable_memtable_entries_lost"] > 0 or in_flush)
+    C["fault.crash_lost_memtable_entries"] += int(info["memtable_entries_lost"] + info["immutable_memtable_entries_lost"] > 0)
+    C["fault.crash_lost_immutable_memtable_entries"] += int(info["immutable_memtable_entries_lost"] > 0)
     C["fault.crash_with_writers_inside_wal_append"] += int(in_append > 0)
     C["probe.durable_write_restored_from_wal"] += int(rec["wal_entries_replayed"] > 0)
-    if W.watch.truncations:
-        C["probe.wal_truncated_before_crash"] += 1
+    C["probe.wal_truncated_before_crash"] += int(W.watch.truncations > 0)
+    C["probe.crash_with_three_levels_occupied"] += int(W.watch.max_levels_occupied >= 3)
+    C["probe.crash_after_tombstone_reached_sstable"] += int(W.watch.tomb_in_sst)
+    C["probe.compaction_requested_while_one_in_progress"] += int(W.watch.compaction_requests_while_busy > 0)
+    C["probe.wal_kept_entries_of_newer_memtable_across_flush"] += int(W.watch.truncations > 0 and len(pre_wal) > 0)
     C["_sim_ns"] = C.get("_sim_ns", 0) + W.mon.last_time_ns
-    states.add(repr((sc["engine"]["wal"]["policy"], min(sc["engine"]["memtable"], 4), len(sc["writers"]), in_flush, in_comp,
+    states.add(repr((phase, pol, min(sc["engine"]["memtable"], 4), min(len(W.writers), 3), in_flush, in_comp,
                      min(in_append, 2), info["wal_entries_lost"] > 0, info["memtable_entries_lost"] > 0,
-                     min(rec["wal_entries_replayed"], 3), rec["sstable_keys"] > 0)))
+                     min(rec["wal_entries_replayed"], 3), rec["sstable_keys"] > 0, min(W.watch.max_levels_occupied, 3))))
 
     # ---- read-back of every key
     for key in W.keys:
         ws = W.writes[key]
         durable = [o for o in ws if o["seq"] <= synced]
         got = state1[key]
-        values = {o["value"] for o in ws if o["kind"] == "put"}
+        values = {o["value"] for o in ws if o["kind"] == "put"} | W.prior_values.get(key, set())  # prior: written before the first crash
         if got is S.TOMB:
-            return ("C15/no-phantom-value/LSMTree/tombstone-sentinel-returned", f"crash index {k}: key {key} reads the tombstone sentinel")
+            return ("C15/no-phantom-value/LSMTree/tombstone-sentinel-returned", f"{label}: key {key} reads the tombstone sentinel")
         if got is not None and got not in values:
             other = [kk for kk in W.keys if any(o["value"] == got for o in W.writes[kk])]
             where = "value-of-another-key" if other else "value-nobody-wrote"
             return (f"C15/no-phantom-value/LSMTree/{where}",
-                    f"crash index {k}: after recovery key {key} reads {got!r}, which was never written to it")
+                    f"{label}: after recovery key {key} reads {got!r}, which was never written to it")
         allowed = {S.wval(o) for o in ws if not _superseded(o, durable)}
         if not durable:
             allowed.add(None)
@@ -400,35 +515,84 @@ def crash_at(sc, k, base_digest, C, states):
         cands = sorted((o for o in durable if not _superseded(o, durable)), key=lambda o: o["seq"])
         d = cands[-1]
         want = S.wval(d)
-        in_sst = _sst_has(lsm, key, want)
         ov = "after-overlapping-compactions" if W.watch.overlap_compactions else "compactions-never-overlapped"
-        if d["seq"] in W.watch.trunc_unflushed and not W.watch.represented(d):
-            cause = "wal-truncated-before-entry-reached-sstable"
+        api = "/workload-mixes-sync-api" if W.sync_api_ops else ""
+        if d["seq"] == 0:
+            cause = "state-of-first-recovery-lost-by-second-crash" + api
+        elif d["seq"] in W.watch.trunc_unflushed and not W.watch.represented(d):
+            cause = "wal-truncated-before-entry-reached-sstable" + api
         elif d["seq"] in pre_wal and d["seq"] not in post_wal:
             cause = "wal-crash-dropped-synced-entry"
         elif d["seq"] in post_wal:
             cause = "synced-wal-entry-not-restored"
         elif d["seq"] not in pre_wal and not W.watch.represented(d):
-            cause = "wal-entry-vanished-without-reaching-sstable"
+            cause = "wal-entry-vanished-without-reaching-sstable" + api
         else:
-            cause = f"durable-entry-reached-sstable-but-is-shadowed-or-dropped/{ov}"
+            cause = f"durable-entry-reached-sstable-but-is-shadowed-or-dropped/{ov}" + api
+        if phase == "second":
+            cause += "/after-first-recovery"
         symptom = ("durable write lost (key absent)" if got is None else
                    "overwritten/deleted value resurrected" if want is None or got != want else "?")
         hist = [f"{'del' if o['kind'] == 'delete' else 'put ' + repr(o['value'])} seq={o['seq']}"
                 f"{' durable' if o['seq'] <= synced else ''} [{o['inv']},{o['ret']}]" for o in ws]
         return (f"C15/durable-readback/LSMTree/{cause}",
-                f"crash index {k} of {sc['_L']} (flush in flight: {in_flush}, compaction in flight: {in_comp}, synced_up_to={synced}, "
+                f"{label} (flush in flight: {in_flush}, compaction in flight: {in_comp}, synced_up_to={synced}, "
                 f"WAL seqs before crash {sorted(pre_wal)}): {symptom}: key {key} reads {got!r} after crash+recover; allowed "
                 f"{sorted(map(repr, allowed))}; writes to the key: {hist}; sstable entries for the key before the crash: {pre_sst[key]}")
     if state2 != state1:
         diff = {kk: (state1[kk], state2[kk]) for kk in W.keys if state1[kk] != state2[kk]}
         return ("C15/recover-idempotent/LSMTree/second-recover-changes-state",
-                f"crash index {k}: recover_from_crash() twice differs from once: {diff}")
+                f"{label}: recover_from_crash() twice differs from once: {diff}")
     if state3 != state1:
         diff = {kk: (state1[kk], state3[kk]) for kk in W.keys if state1[kk] != state3[kk]}
         return ("C15/recover-idempotent/LSMTree/second-crash-recover-changes-state",
-                f"crash index {k}: crash+recover a second time differs from the first recovery: {diff}")
-    return repr(sorted(state1.items()))
+                f"{label}: crash+recover a second time differs from the first recovery: {diff}")
+    return state1
+
+
+def first_crash(sc, k, L, base_digest, C, states):
+    """Fresh re-run stopped after delivery k, then crash/recover/judge.  -> (World, outcome)"""
+    W = World(sc, stop_at=k)
+    st = W.run()
+    if st != "stopped":
+        if isinstance(st, tuple):
+            return W, (st[1], st[2])
+        raise RuntimeError(f"re-run finished before delivery {k} (baseline had it)")
+    if base_digest is not None and W.mon.digest != base_digest:
+        raise RuntimeError(f"re-run diverged from the baseline run before delivery {k}")
+    return W, crash_recover_judge(W, f"crash index {k} of {L}", C, states, sc, "first")
+
+
+def second_crash(sc, k, j, L, base_digest, C, states):
+    """First crash at k (judged silently: it is judged on its own elsewhere), follow-up workload on the recovered tree,
+    second crash after its delivery j."""
+    scratch = {n: 0 for n in C}
+    W, out = first_crash(sc, k, L, base_digest, scratch, set())
+    if isinstance(out, tuple):
+        return None  # the first crash already fails; reported by the first-crash pass
+    W2 = World(sc, stop_at=j, base=W, recovered=out)
+    st = W2.run()
+    if st == "done":  # follow-up phase shorter than j: crash after its last delivery
+        st = "stopped"
+    if st != "stopped":
+        return st[1] + "/after-first-recovery", f"first crash at {k}, follow-up phase: {st[2]}"
+    C["workloads_sync_api_ops"] += W2.sync_api_ops
+    return crash_recover_judge(W2, f"first crash at index {k} of {L}, recovery, follow-up workload, second crash after its delivery "
+                                   f"{min(j, W2.mon.seq)}", C, states, sc, "second")
+
+
+COUNTERS = [
+    "fault.crash_points", "fault.crash_in_flush_window", "fault.crash_in_compaction_window",
+    "fault.second_crash_points", "fault.second_crash_in_flush_window", "fault.second_crash_in_compaction_window",
+    "fault.crash_points_policy_every", "fault.crash_points_policy_batch", "fault.crash_points_policy_periodic",
+    "fault.crash_lost_unsynced_wal_tail", "fault.crash_lost_memtable_entries", "fault.crash_lost_immutable_memtable_entries",
+    "fault.crash_with_writers_inside_wal_append",
+    "probe.durable_write_restored_from_wal", "probe.nondurable_write_survived_in_sstable", "probe.durable_delete_read_back_absent",
+    "probe.wal_truncated_before_crash", "probe.crash_after_wal_sync_before_memtable_put", "probe.all_crash_points_covered",
+    "probe.crash_with_three_levels_occupied", "probe.crash_after_tombstone_reached_sstable",
+    "probe.compaction_requested_while_one_in_progress", "probe.wal_kept_entries_of_newer_memtable_across_flush",
+    "probe.sync_api_write_in_workload", "workloads_sync_api_ops",
+]
 
 
 def run(sc):
@@ -440,11 +604,13 @@ def run(sc):
     ks = crash["ks"]
     if any(isinstance(k, bool) or not isinstance(k, int) for k in ks):
         raise InvalidScenario("crash index")
+    second = crash.get("second") or []
+    if not isinstance(second, list) or any(not isinstance(p, list) or len(p) != 2 or
+                                           any(isinstance(x, bool) or not isinstance(x, int) or x < 1 for x in p) for p in second):
+        raise InvalidScenario("second crash points")
     base, st = baseline(sc)
-    C = {name: 0 for name in EXPECTED_PROBES}
+    C = {name: 0 for name in COUNTERS}
     L = base.mon.seq
-    sc = dict(sc)
-    sc["_L"] = L
     sig = msg = None
     states = set()
     hh = hashlib.blake2b(digest_size=12)
@@ -454,25 +620,37 @@ def run(sc):
         sig, msg = st[1], st[2]
     else:
         digests = [p[3] for p in base.phase_log]
-        for k in sorted(set(ks)):
-            if not 1 <= k <= L:
-                continue  # beyond the (possibly shrunk) workload: ignored
-            out = crash_at(sc, k, digests[k - 1], C, states)
+        first_ks = sorted({min(k, L) for k in ks if k >= 1})  # an index beyond the workload means "after the last delivery"
+        if not first_ks and not second:
+            raise InvalidScenario("no crash point")
+        for k in first_ks:
+            _, out = first_crash(sc, k, L, digests[k - 1], C, states)
             done_ks += 1
             if isinstance(out, tuple):
                 sig, msg = out
                 break
-            hh.update(f"{k}:{out}".encode())
-        if done_ks == 0:
-            raise InvalidScenario("no crash point inside the workload")
+            hh.update(f"{k}:{sorted(out.items())!r}".encode())
+        if sig is None:
+            for k, j in sorted({(min(p[0], L), p[1]) for p in second}):
+                out = second_crash(sc, k, j, L, digests[k - 1], C, states)
+                if out is None:
+                    continue
+                if isinstance(out, tuple):
+                    sig, msg = out
+                    break
+                hh.update(f"{k}/{j}:{sorted(out.items())!r}".encode())
     if done_ks == L:
         C["probe.all_crash_points_covered"] = 1
+    if base.sync_api_ops:
+        C["probe.sync_api_write_in_workload"] = 1
     sim_ns = C.pop("_sim_ns", 0)
     C["workload_deliveries"] = L
     C["flushes"] = base.lsm.stats.memtable_flushes
     C["compactions"] = base.lsm.stats.compactions
+    C[f"workloads_policy_{sc['engine']['wal'].get('policy')}"] = 1
     nontrivial = (C["fault.crash_in_flush_window"] + C["fault.crash_in_compaction_window"] > 0
                   and C["probe.durable_write_restored_from_wal"] > 0)
     return result(sig=sig, msg=msg or "", digest=hh.hexdigest(), nontrivial=nontrivial, counters=C,
-                  sim_s=(base.mon.last_time_ns + sim_ns) / 1e9, deliveries=L + sum(k for k in set(ks) if 1 <= k <= L),
+                  sim_s=(base.mon.last_time_ns + sim_ns) / 1e9,
+                  deliveries=L + sum(min(k, L) for k in set(ks) if k >= 1) + sum(min(p[0], L) + p[1] for p in second),
                   klass=sc.get("klass", "crash"), state=sorted(states))
